@@ -338,32 +338,46 @@ func loadView(ctx context.Context, scope *ReferenceScope, tableExpr parser.Query
 			var hfields Header
 			resultSetList := make([]RecordSet, view.RecordLen())
 
-			if err := EvaluateSequentially(ctx, scope, view, func(seqScope *ReferenceScope, rIdx int) error {
-				appliedView, err := Select(ctx, seqScope, subquery.Query)
-				if err != nil {
-					return err
-				}
-
-				if 0 < len(joinTableName.Literal) {
-					if err = appliedView.Header.Update(joinTableName.Literal, nil); err != nil {
+			applyLateral := func(left *View, results []RecordSet) error {
+				return EvaluateSequentially(ctx, scope, left, func(seqScope *ReferenceScope, rIdx int) error {
+					appliedView, err := Select(ctx, seqScope, subquery.Query)
+					if err != nil {
 						return err
 					}
-				}
 
-				calcView := NewView()
-				calcView.Header = view.Header.Copy()
-				calcView.RecordSet = RecordSet{view.RecordSet[rIdx].Copy()}
-				if err = joinViews(ctx, scope, calcView, appliedView, join); err != nil {
-					return err
-				}
+					if 0 < len(joinTableName.Literal) {
+						if err = appliedView.Header.Update(joinTableName.Literal, nil); err != nil {
+							return err
+						}
+					}
 
-				if rIdx == 0 {
-					hfields = calcView.Header
-				}
-				resultSetList[rIdx] = calcView.RecordSet
-				return nil
-			}); err != nil {
+					calcView := NewView()
+					calcView.Header = left.Header.Copy()
+					calcView.RecordSet = RecordSet{left.RecordSet[rIdx].Copy()}
+					if err = joinViews(ctx, scope, calcView, appliedView, join); err != nil {
+						return err
+					}
+
+					if rIdx == 0 {
+						hfields = calcView.Header
+					}
+					results[rIdx] = calcView.RecordSet
+					return nil
+				})
+			}
+
+			if err := applyLateral(view, resultSetList); err != nil {
 				return nil, err
+			}
+			if view.RecordLen() < 1 {
+				// Without a record on the left side the sub-query has not been evaluated and the joined view
+				// would have no fields at all: take its fields from an evaluation against a record of nulls.
+				nullView := NewView()
+				nullView.Header = view.Header.Copy()
+				nullView.RecordSet = RecordSet{NewEmptyRecord(view.FieldLen())}
+				if err := applyLateral(nullView, make([]RecordSet, 1)); err != nil {
+					return nil, err
+				}
 			}
 
 			resultSet := make(RecordSet, 0, view.RecordLen())
